@@ -9,6 +9,7 @@
   fixes/timing-01 and fixes/timing-02 applied.
 -/
 import BluetoeModel.Timing.Lemmas
+import BluetoeModel.Timing.Invariant
 
 namespace BluetoeModel.Timing
 open BluetoeModel.ConnEvents (dtAdd dtSub dtMul ppm Cfg Events St advance)
@@ -577,5 +578,72 @@ example : (run (init exCfg 500) [.connect ⟨3, 11, 24, 0, 72⟩ 5, .upd ⟨5, 6
   decide
 example : (run (init exCfg 500) [.connect ⟨3, 11, 24, 0, 72⟩ 5, .upd ⟨5, 5, 5, 1, 25⟩ 2, .ev]).map (·.phase)
     = some .advertising := by decide
+
+/-! ### no `delta_time` assertion, no overflow, in any history -/
+
+-- "For every history of radio callbacks — CONNECT_IND with any field values (those accepted by the fixed
+-- `check_timing_paremeters()` open a connection), connection events that take place, with or without an
+-- LL_CONNECTION_UPDATE_IND, lost events, the procedure timer — no `delta_time` operation of the link layer's
+-- timing code hits its assertion, and all planned times stay within 32 bit."
+--
+-- Preconditions, all of them:
+--   * `ownSca ≤ 500`: the device's own sleep clock accuracy (`sleep_clock_accuracy_ppm<>`, default 500) is within
+--     the 500 ppm the Core specification allows a peripheral (Vol 6 Part B 4.2.2);
+--   * `Op.WF`: the five raw fields have the width of their PDU fields (1 + 4 × 2 octets), `procedure_timeout_` is
+--     poked with a 32 bit value.
+-- No bound on the number of lost events is assumed: `timeout()` itself gives up as soon as
+-- `time_since_last_event_ ≥ connection_timeout_`, which is where the bound `timeSince < 32 s + 4 s` comes from.
+--
+-- `run … = some s` says that none of the steps (hence no prefix of the history) returned `none`, the model's
+-- result for a failing `assert` in `delta_time::operator+= / -= / *=`.  `Inv s` (Invariant.lean) is the
+-- inductive invariant: in every state all timing members fit their C++ types; while a connection exists the
+-- parameters are the ones the check accepted (interval ≤ 4 s, latency ≤ 499, timeout ≤ 32 s,
+-- (latency+1)·interval·2 < timeout, window size ≤ 10 ms, offset ≤ interval + 1.25 ms), `time_since_last_event_`
+-- < 36 s, cumulated accuracy ≤ 1000 ppm, the window at the radio is the one `setup_next_connection_event()`
+-- computes from the current members, ends before 41 s, and both `ppm()` calls were exact (no 64 bit overflow of
+-- the product, quotient fits 32 bit).
+theorem no_delta_time_assert_in_any_history (cfg : Cfg) (ownSca : Nat) (ho : ownSca ≤ 500) (ops : List Op)
+    (hw : ∀ o ∈ ops, o.WF) :
+    ∃ s, run (init cfg ownSca) ops = some s ∧ Inv s :=
+  run_inv ops _ (init_inv cfg ownSca ho) hw
+
+-- the same, spelled out for the times handed to the radio
+theorem planned_times_fit_32_bit (cfg : Cfg) (ownSca : Nat) (ho : ownSca ≤ 500) (ops : List Op)
+    (hw : ∀ o ∈ ops, o.WF) :
+    ∃ s, run (init cfg ownSca) ops = some s
+      ∧ s.timeSince < 4294967296 ∧ s.proc < 4294967296
+      ∧ s.win.1 < 4294967296 ∧ s.win.2.1 < 4294967296 ∧ s.win.2.2 < 4294967296
+      ∧ (s.phase ≠ .advertising →
+          s.timeSince < 36000000 ∧ s.win.1 ≤ s.win.2.1 ∧ s.win.2.1 < 41000000 ∧ s.win.2.2 = s.tp.interval
+          ∧ s.tp.interval ≤ 4000000 ∧ s.tp.timeoutUs ≤ 32000000 ∧ s.sca ≤ 1000
+          ∧ window s.timeSince s.tp.winSize s.tp.winOffset s.sca = some (s.win.1, s.win.2.1)
+          ∧ WindowExact s.timeSince s.tp.winSize s.tp.winOffset s.sca) := by
+  obtain ⟨s, hr, hi⟩ := no_delta_time_assert_in_any_history cfg ownSca ho ops hw
+  refine ⟨s, hr, hi.base.ts, hi.base.proc, hi.base.win.1, hi.base.win.2.1, hi.base.win.2.2, fun hc => ?_⟩
+  obtain ⟨c, p⟩ := hi.conn hc
+  exact ⟨c.ts, p.le, p.lt, p.iv, c.tp.iv, c.tp.to, c.sca, p.eq, p.exact⟩
+
+-- non-vacuity: a history that satisfies the preconditions and goes to the edge of the invariant — interval
+-- 3.99875 s, supervision timeout 32 s, first event takes place, then eight events are lost:
+-- `time_since_last_event_` reaches 35.98875 s (< 36 s) with the connection still alive; the ninth lost event is
+-- the supervision timeout
+def exLongOps : List Op := [.connect ⟨8, 3199, 3199, 0, 3200⟩ 0, .ev, .lost, .lost, .lost, .lost, .lost, .lost, .lost, .lost]
+
+example : (500 : Nat) ≤ 500 ∧ (∀ o ∈ exLongOps ++ [.lost], o.WF) := by decide
+example : (run (init exCfg 500) exLongOps).map (fun s => (s.phase, s.timeSince, s.sca, s.win))
+    = some (.connected, 35988750, 1000, (35952762, 36024738, 3998750)) := by decide
+example : (run (init exCfg 500) (exLongOps ++ [.lost])).map (fun s => (s.phase, s.reason))
+    = some (.advertising, 8) := by decide
+-- … with an update that shrinks interval and timeout at its instant (the old distance stays in
+-- `time_since_last_event_`), and the procedure timer running
+def exUpdOps : List Op := [.connect ⟨8, 3199, 3199, 0, 3200⟩ 0, .upd ⟨1, 0, 6, 0, 10⟩ 3, .setProc 40000000, .lost, .lost]
+
+example : ∀ o ∈ exUpdOps, o.WF := by decide
+example : (run (init exCfg 500) exUpdOps).map (fun s => (s.phase, s.timeSince, s.tp.timeoutUs, s.win))
+    = some (.changed, 11996250, 100000, (11984254, 12009497, 7500)) := by decide
+
+-- the precondition on the device's own accuracy is needed: with an (absurd) accuracy of 200 % the widening of the
+-- first window exceeds the distance to the window and `delta_time::operator-=` asserts
+example : run (init exCfg 2000000) [.connect ⟨3, 11, 24, 0, 72⟩ 5] = none := by decide
 
 end BluetoeModel.Timing
